@@ -3,6 +3,7 @@
      op1 <code> a | op2 <code> a b | op3 <code> a b c      -> result
      arr <code> <pre 0/1> <sz> <scalar> | r.. | x.. | y..  -> result list or UB
      dot <sz> | a.. | b..                                    -> result or UB
+     xop <p> <k> <f> <code> a b c   -> Extension<> operation of ExtModel.v on p-adic operands (stateless)
    All operations refer to the last field line. *)
 let zs = z_of_string
 let cur : Model.tables option ref = ref None
@@ -30,6 +31,7 @@ let () = run_lines (fun toks ->
     Printf.sprintf "F %s %s %s H %s %s %s C %s P %s%s" (string_of_z t.Model.t_q) (string_of_z t.Model.t_one) (string_of_z t.Model.t_mone)
       (hash l2p) (hash p2l) (hash pl1) (if ok then "1" else "0") (if fg then "1" else "0")
       (if q <= 1024 then " T " ^ show l2p ^ " | " ^ show p2l ^ " | " ^ show pl1 else "")
+  | ["xop"; p; k; f; c; a; b; d] -> string_of_z (Model.ext_opZ (zs p) (zs k) (zs f) (zs c) (zs a) (zs b) (zs d))
   | ["op1"; c; a] -> string_of_z (Model.op1 (tab ()) (zs c) (zs a))
   | ["op2"; c; a; b] -> string_of_z (Model.op2 (tab ()) (zs c) (zs a) (zs b))
   | ["op3"; c; a; b; d] -> string_of_z (Model.op3 (tab ()) (zs c) (zs a) (zs b) (zs d))
